@@ -75,3 +75,6 @@ Definition v3_eqb (a b : v3) : bool :=
   && qapproxb (d_T a) (d_T b) && qapproxb (d_P a) (d_P b).
 Definition vlle_check (r : xres) (expect : v3) : bool :=
   match r with XOk s => v3_eqb s expect | _ => false end.
+(* the implementation raised (an arithmetic error inside a VLE / LLE call propagates out of Stream.vlle) *)
+Definition vlle_check_err (r : xres) : bool :=
+  match r with XOk _ => false | _ => true end.
